@@ -136,10 +136,17 @@ def gen_block_general(rng, l, harm):
     return dict(function_type=ftype_for([l], harm), region='', angular_momentum=[l], exponents=ex, coefficients=cols)
 
 
-def gen_ecp(rng, maxl=None):
-    maxl = maxl if maxl is not None else rng.randrange(1, 5)
+def gen_ecp(rng, maxl=None, shape='full'):
+    """shape: 'full' = one potential for every l in 0..maxl (as in every ECP of the store); 'gap' = one l below the top missing;
+    'single' = only the top (local) potential.  The validator accepts all three."""
+    maxl = maxl if maxl is not None else rng.randrange(2 if shape == 'gap' else 1, 5)
     pots = []
-    for l in range(maxl + 1):
+    ls = list(range(maxl + 1))
+    if shape == 'gap':
+        ls.remove(rng.randrange(0, maxl))
+    elif shape == 'single':
+        ls = [maxl]
+    for l in ls:
         n = rng.randrange(1, 4)
         pots.append(dict(ecp_type='scalar_ecp', angular_momentum=[l], r_exponents=[rng.choice([0, 1, 2]) for _ in range(n)],
                          gaussian_exponents=[num(rng, -1, 3) for _ in range(n)], coefficients=[[num(rng, -2, 3, neg=True) for _ in range(n)]]))
@@ -189,6 +196,8 @@ def gen_element(rng, harm, kind=None, maxl=None):
         el['electron_shells'] = dedup_shells(shells)
     if kind in ('ecp', 'ecponly'):
         el['ecp_potentials'], el['ecp_electrons'] = gen_ecp(rng)
+    elif kind in ('ecpgap', 'ecpsingle'):
+        el['ecp_potentials'], el['ecp_electrons'] = gen_ecp(rng, shape=kind[3:])
     el['references'] = [dict(reference_description='generated', reference_keys=[])]
     return el
 
